@@ -366,6 +366,111 @@ def cfg_of(f):
     return c
 
 
+def lexical_facts(g, node, stop=None):
+    """branch facts under which `node` (inside function g) runs, including the facts under which the closures that
+    lexically contain it are defined (up to and including `stop`, or the outermost function)"""
+    facts = []
+    h, at = g, node
+    while h is not None:
+        facts += cfg_of(h).guards_of_ast(at)
+        if h is stop:
+            break
+        at, h = h.node, h.parent
+    return facts
+
+
+def single_reaching_value(cfg, at_ast, name):
+    """the value of the one assignment `name = <value>` that reaches `at_ast` (None when several / none do)"""
+    at = cfg.node_for(at_ast)
+    if at is None:
+        return None
+    defs = cfg._rd().defs_reaching(at, name)
+    if len(defs) != 1:
+        return None
+    st = cfg.nodes[defs[0]].ast
+    if isinstance(st, ast.Assign) and len(st.targets) == 1 and isinstance(st.targets[0], ast.Name) and st.targets[0].id == name:
+        return st.value
+    return None
+
+
+def backend_call_of(p, f, depth=0):
+    """The call a public wrapper ends in, written in terms of the wrapper's own parameters:
+    (operation name or None, call node).  `return backend.N(...)`, `return getattr(backend, "N")(...)`, and the same
+    reached through a module-level helper whose parameters are replaced by the arguments it is called with
+    (`return _reduce("sum", backend, description, tensor, keepdims, parameters)`)."""
+    from .elempreds import rename
+
+    rets = [r for r in walk_no_nested(f.node) if isinstance(r, ast.Return) and isinstance(r.value, ast.Call)]
+    if len(rets) != 1:
+        return None, None
+    return _resolve_backend_call(p, f.module, rets[0].value, rename, depth)
+
+
+def _resolve_backend_call(p, module, call, rename, depth):
+    fn = call.func
+    if isinstance(fn, ast.Attribute) and isinstance(fn.value, ast.Name) and fn.value.id == "backend":
+        return fn.attr, call
+    if isinstance(fn, ast.Call) and isinstance(fn.func, ast.Name) and fn.func.id == "getattr" and len(fn.args) == 2 and isinstance(fn.args[0], ast.Name) and fn.args[0].id == "backend":
+        nm = fn.args[1].value if isinstance(fn.args[1], ast.Constant) and isinstance(fn.args[1].value, str) else None
+        return nm, call
+    if depth >= 3:
+        return None, call
+    r = resolve_callee(p, call, module)
+    if not (r and r[0] == "func" and r[1].parent is None and r[1].cls is None and isinstance(r[1].node, ast.FunctionDef)):
+        return None, call
+    h = r[1]
+    a = h.node.args
+    if a.vararg or a.kwarg or any(isinstance(x, ast.Starred) for x in call.args) or any(k.arg is None for k in call.keywords):
+        return None, call
+    params = [x.arg for x in a.posonlyargs + a.args]
+    mapping = {}
+    for i, x in enumerate(call.args):
+        if i >= len(params):
+            return None, call
+        mapping[params[i]] = x
+    for k in call.keywords:
+        mapping[k.arg] = k.value
+    defaults = dict(zip(params[len(params) - len(a.defaults):], a.defaults))
+    for k_, d in zip(a.kwonlyargs, a.kw_defaults):
+        if d is not None:
+            defaults[k_.arg] = d
+    for q in params + [k_.arg for k_ in a.kwonlyargs]:
+        if q not in mapping:
+            if q not in defaults:
+                return None, call
+            mapping[q] = defaults[q]
+    rets = [x for x in walk_no_nested(h.node) if isinstance(x, ast.Return) and isinstance(x.value, ast.Call)]
+    if len(rets) != 1:
+        return None, call
+    # parameters of the helper that are rebound inside it cannot be substituted
+    if any(isinstance(x, ast.Name) and isinstance(x.ctx, ast.Store) and x.id in mapping for x in walk_no_nested(h.node)):
+        return None, call
+    inner = rename(rets[0].value, mapping)
+    # f(*(a, b)) is f(a, b)
+    flat = []
+    for x in inner.args:
+        if isinstance(x, ast.Starred) and isinstance(x.value, (ast.Tuple, ast.List)) and not any(isinstance(e, ast.Starred) for e in x.value.elts):
+            flat.extend(x.value.elts)
+        else:
+            flat.append(x)
+    inner.args = flat
+    return _resolve_backend_call(p, h.module, inner, rename, depth + 1)
+
+
+_NEGATED_OP = {ast.Eq: ast.NotEq, ast.NotEq: ast.Eq, ast.Lt: ast.GtE, ast.GtE: ast.Lt, ast.Gt: ast.LtE, ast.LtE: ast.Gt, ast.Is: ast.IsNot, ast.IsNot: ast.Is, ast.In: ast.NotIn, ast.NotIn: ast.In}
+
+
+def as_positive(t, pol):
+    """a branch fact as one expression that is true: (`k in sol`, False) -> `k not in sol`; None when the negation of
+    the test is not a single comparison"""
+    if pol:
+        return t
+    if isinstance(t, ast.Compare) and len(t.ops) == 1 and type(t.ops[0]) in _NEGATED_OP:
+        new = ast.Compare(left=t.left, ops=[_NEGATED_OP[type(t.ops[0])]()], comparators=t.comparators)
+        return ast.copy_location(new, t)
+    return None
+
+
 def guard_facts_text(facts):
     return [(norm(t), pol) for t, pol in facts]
 
